@@ -175,8 +175,11 @@ pub async fn clean_file(
 ) -> errors::Result<(PointerFile, DeduplicationMetrics)> {
     let mut reader = File::open(&filename)?;
 
+    // the reported size is only a hint for sizing the buffer: it is 0 for procfs-like files and for files that are
+    // written after the stat, and reading into an empty buffer would end the loop below at once
     let n = reader.metadata()?.len() as usize;
-    let mut buffer = vec![0u8; usize::min(n, *INGESTION_BLOCK_SIZE)];
+    let buffer_size = if n == 0 { *INGESTION_BLOCK_SIZE } else { usize::min(n, *INGESTION_BLOCK_SIZE) };
+    let mut buffer = vec![0u8; buffer_size];
 
     let mut handle = processor.start_clean(filename.as_ref().to_string_lossy().into());
 
